@@ -64,3 +64,20 @@ Lemma b1_witness :
               CReady TOk; CFlush TOk]; OPending; OGauges 0 0]
   /\ nth 10 (tr_of b1_cfg b1_ops) [] = [OHPolled 1; OExecPending 1; OGauges 0 0].
 Proof. vm_compute. repeat split; reflexivity. Qed.
+
+(* stops_after_error is needed by the server halves of C14 and C09: when the application polls
+   Requests again after the stream yielded an error, the channel writes to the failed sink, so
+   the contract over ALL polls (polls_all, no boundary) is false while the one up to the first
+   error (polls_of) holds *)
+Lemma e1_witness :
+  stops_after_error e1_cfg e1_ops (tr_of e1_cfg e1_ops) = false
+  /\ contract_ok (fun _ : response => true) (polls_all e1_ops (tr_of e1_cfg e1_ops)) = false
+  /\ c14s_ok e1_ops (tr_of e1_cfg e1_ops) = true.
+Proof. vm_compute. repeat split; reflexivity. Qed.
+
+(* C18 server half is not vacuous: a yield that lost the sampling bit (trace number 6 instead of
+   7) is rejected, the faithful one accepted *)
+Lemma c18_witness :
+  c18s_ok [[OCalls [CReady TOk; CNext (RItem (MReq 1 1000 7 5)); CFlush TOk]; OYield 0 1 1000 6 5; OGauges 1 1]] = false
+  /\ c18s_ok [[OCalls [CReady TOk; CNext (RItem (MReq 1 1000 7 5)); CFlush TOk]; OYield 0 1 1000 7 5; OGauges 1 1]] = true.
+Proof. vm_compute. split; reflexivity. Qed.
